@@ -114,7 +114,8 @@ pub fn check_proxy(run: &mut Run) {
             let (path, _q) = hosts::split_target(&rq.target);
             let traversal = path.contains("..");
             let provision = rq.target == "/provision";
-            let body_len = rq.body.len();
+            let declared: Option<usize> = if rq.declared_only { rq.headers.iter().find(|(n, _)| n.eq_ignore_ascii_case("content-length")).and_then(|(_, v)| String::from_utf8_lossy(v).trim().parse().ok()) } else { None };
+            let body_len = declared.unwrap_or(rq.body.len());
             let exempt = is_exempt(&rq.method, &rq.target);
             let limit = if exempt { LARGE_LIMIT } else { LOW_LIMIT };
             let too_large = body_len > limit;
